@@ -516,7 +516,7 @@ def corpus():
     out.append({"kind": "native", "revs": [{"parents": [], "tree": b0}, {"parents": [0], "tree": b1},
                                            {"parents": [1], "tree": b2}, {"parents": [2], "tree": b3},
                                            {"parents": [3], "tree": b4}]})
-    # a directory is renamed and loses a child in the same revision (finding C35-renamed-dir-tree-missing)
+    # regression (C35-renamed-dir-tree-missing, fixed by 326cdf8): a directory is renamed and loses a child in one revision
     out.append({"kind": "native", "revs": [
         {"parents": [], "tree": [d("dd", b"d"), f("dd/aa", b"a"), f("dd/bb", b"b", b"B\n")]},
         {"parents": [0], "tree": [f("bb", b"b", b"B\n"), d("ee", b"d"), f("ee/aa", b"a")]}]})
@@ -1016,38 +1016,7 @@ def _has_unusual_mode(commits):
     return any(un(c["tree"]) for c in commits)
 
 
-def _renamed_dir_lost_child(inp):
-    """C35-renamed-dir-tree-missing: in some revision a directory changes its path (it or an ancestor is renamed/moved)
-    and loses a child (deleted or moved out) while nothing is added to or modified directly in it"""
-    for r in inp.get("revs", []):
-        if not r["parents"]:
-            continue
-        base = {bytes(e[1]): e for e in inp["revs"][r["parents"][0]]["tree"]}
-        cur = {bytes(e[1]): e for e in r["tree"]}
-        bpath = {e[0]: bytes(e[1]) for e in base.values()}
-        cpath = {e[0]: bytes(e[1]) for e in cur.values()}
-
-        def parent_fid(e, paths):
-            return paths.get(e[0].rsplit("/", 1)[0]) if "/" in e[0] else b"<root>"
-        for dfid, dcur in cur.items():
-            dold = base.get(dfid)
-            if dcur[2] != "directory" or dold is None or dold[2] != "directory" or dold[0] == dcur[0]:
-                continue
-            old_kids = {f for f, e in base.items() if parent_fid(e, bpath) == dfid}
-            new_kids = {f for f, e in cur.items() if parent_fid(e, cpath) == dfid}
-            lost = old_kids - new_kids
-            touched = [f for f in new_kids if f not in old_kids
-                       or [base[f][0].rsplit("/", 1)[-1]] + list(base[f][2:]) != [cur[f][0].rsplit("/", 1)[-1]] + list(cur[f][2:])]
-            if lost and not touched:
-                return True
-    return False
-
-
 def finding_matches(fid, inp, obs, why):
-    if fid == "C35-renamed-dir-tree-missing":
-        return (inp["kind"] == "native" and _renamed_dir_lost_child(inp)
-                and ((isinstance(obs, Err) and str(obs).startswith("KeyError:"))
-                     or "lacks the objects" in why))
     if fid == "C35-unusual-modes-bytes-keys":
         # export_unusual_file_modes returns bytes paths: re-exporting a revision with a non-standard git file
         # mode mixes str and bytes in _tree_to_objects (cold) or loses the mode (_check_expected_sha, warm)
